@@ -209,6 +209,29 @@ pub fn check_classification(p: &Program, tree: &sv::SyntaxTree, text: &str) -> R
 }
 
 
+/// Oracle (4): an enum node that consists of nothing but one keyword is the variant named after that keyword
+/// (`chandle` -> DataType::Chandle, `join_any` -> JoinKeyword::JoinAny, `ns` -> TimeUnit::NS): compared without
+/// case and underscores; terminals that are not words ("$", "1step", "\"DPI-C\"") have spelled-out variant names
+/// and are left aside.
+pub fn check_keyword_variants(tree: &sv::SyntaxTree, text: &str) -> Result<usize, (String, serde_json::Value)> {
+    let norm = |s: &str| s.chars().filter(|c| *c != '_').map(|c| c.to_ascii_lowercase()).collect::<String>();
+    let mut n = 0;
+    for (kind, variant, word, offset) in sv::keyword_variants(tree, text) {
+        let wordlike = word.chars().next().map(|c| c.is_ascii_alphabetic() || c == '_').unwrap_or(false) && word.chars().all(|c| c.is_ascii_alphanumeric() || c == '_');
+        if !wordlike {
+            continue;
+        }
+        n += 1;
+        if norm(&variant) != norm(word) {
+            return Err((
+                format!("keyword {:?} at {} is classified as {}::{}", word, offset, kind, variant),
+                json!({"keyword": word, "offset": offset, "kind": kind, "variant": variant}),
+            ));
+        }
+    }
+    Ok(n)
+}
+
 pub fn run_program(ctx: &Ctx, p: &Program, text: &str, st: &mut Stats) -> Result<bool, Fail> {
     let detail = |extra: serde_json::Value| json!({"source": text, "plain": p.render_plain(), "info": extra});
     let (ppt, defs) = match sv::pp_plain(text) {
@@ -248,6 +271,10 @@ pub fn run_program(ctx: &Ctx, p: &Program, text: &str, st: &mut Stats) -> Result
         }
         Err((msg, d)) => return Err(Fail::new(format!("classification: {}", msg), detail(d))),
     }
+    match check_keyword_variants(&tree, &pptext) {
+        Ok(n) => st.count("keyword-only nodes matched to their variant", n as u64),
+        Err((msg, d)) => return Err(Fail::new(format!("classification: {}", msg), detail(d))),
+    }
     for (k, v) in &p.tags {
         st.count(&format!("family:{}", k), *v as u64);
     }
@@ -272,7 +299,8 @@ impl Prop for C02 {
          expressions, literals, instantiations, generate constructs, subroutines) with adversarial identifiers and random layout (campaign svgen), \
          and the same in a plain one-blank layout (campaign plain). Oracle: strict acceptance; for every declared name the leaf at the name token's \
          position is wrapped by the expected *Identifier kind and its nearest enclosing construct of the competing family is (one of) the expected Annex A \
-         kind(s); every keyword / identifier token is exactly one leaf, identifiers under SimpleIdentifier / EscapedIdentifier / SystemTfIdentifier. \
+         kind(s); every keyword / identifier token is exactly one leaf, identifiers under SimpleIdentifier / EscapedIdentifier / SystemTfIdentifier; every enum node \
+         that consists of one keyword only is the variant named after that keyword (also over every accepted corpus file, campaign corpus-variants). \
          Non-trivial: >= 3 design elements or >= 15 expectations; distinct by digest of the token list."
             .into()
     }
@@ -282,15 +310,33 @@ impl Prop for C02 {
             "token positions in the preprocessed text are found by skipping the generator's own trivia alphabet".into(),
         ]
     }
-    fn campaigns(&self, _ctx: &Ctx) -> Vec<Campaign> {
+    fn campaigns(&self, ctx: &Ctx) -> Vec<Campaign> {
         vec![
             Campaign { name: "svgen", kind: Kind::Random { quick: 20000, thorough: 300000 }, tape_len: 1200 },
             Campaign { name: "plain", kind: Kind::Random { quick: 6000, thorough: 60000 }, tape_len: 500 },
+            Campaign { name: "corpus-variants", kind: Kind::Enumerated { count: ctx.corpus.sv.len() }, tape_len: 1 },
         ]
     }
     fn run(&self, ctx: &Ctx, campaign: &str, t: &mut Tape, st: &mut Stats) -> Result<(), Fail> {
         st.eval();
-        let p = svgen::generate(t, &svgen::Cfg::default());
+        if campaign == "corpus-variants" {
+            // the keyword-variant oracle over every accepted corpus file (breadth of Annex A beyond the generator)
+            let f = &ctx.corpus.sv[t.raw() as usize % ctx.corpus.sv.len()];
+            match sv::parse_text(Grammar::Sv, &f.text, false) {
+                Ok((tree, pp)) => match check_keyword_variants(&tree, &pp) {
+                    Ok(n) => {
+                        st.count("keyword-only nodes matched to their variant", n as u64);
+                        if n >= 3 {
+                            st.nontrivial(digest(f.text.as_bytes()), || json!({"campaign": campaign, "file": f.name, "keyword_nodes": n}));
+                        }
+                    }
+                    Err((msg, d)) => return Err(Fail::new(format!("classification: {}", msg), json!({"file": f.name, "source": f.text, "info": d}))),
+                },
+                Err(_) => st.skip("corpus file not accepted"),
+            }
+            return Ok(());
+        }
+        let p = svgen::generate_mixed(t, &svgen::Cfg::default());
         let text = if campaign == "plain" {
             p.render_plain()
         } else {
